@@ -11,13 +11,26 @@ variable {ρ : Nat → Res}
 /-- fuel bound for item kinds -/
 def kb (T : Types) : Nat := vb T + 1
 
+/-- an exported resource also carries the fuel-explicit leaf fact (needed when it is `use`d and then
+aliased) -/
+def ResOk (ρ : Nat → Res) (T : Types) (k : ItemKind) (t : Tree) : Prop :=
+  ∀ rid, k = .type (.resource rid) → ∃ q : Res, t = .type (.resource q) ∧ HR T rid (ρ q.idx)
+
+theorem ResOk.mono {T T' : Types} {k : ItemKind} {t : Tree} (h : ResOk ρ T k t) (hg : Grow T T') :
+    ResOk ρ T' k t := by
+  intro rid hk
+  obtain ⟨q, hq, hr⟩ := h rid hk
+  exact ⟨q, hq, hr.mono hg⟩
+
 /-- the exports the elaboration added correspond to the items the specification lists -/
 def ExpRel (ρ : Nat → Res) (T : Types) (ks : List (Str × ItemKind)) (out : List (Str × Tree)) : Prop :=
-  All2 (fun (k : Str × ItemKind) (t : Str × Tree) => k.1 = t.1 ∧ HK [] [] T (kb T) k.2 (renT ρ t.2)) ks out
+  All2 (fun (k : Str × ItemKind) (t : Str × Tree) => k.1 = t.1 ∧ HK [] [] T (kb T) k.2 (renT ρ t.2) ∧
+    ResOk ρ T k.2 t.2) ks out
 
 theorem ExpRel.mono {T T' : Types} {ks : List (Str × ItemKind)} {out : List (Str × Tree)}
     (h : ExpRel ρ T ks out) (hg : Grow T T') : ExpRel ρ T' ks out :=
-  All2.imp (fun _ _ hkt => ⟨hkt.1, HK.mono hkt.2 hg.ext (by have := hg.size; unfold kb vb; omega)⟩) h
+  All2.imp (fun _ _ hkt => ⟨hkt.1, HK.mono hkt.2.1 hg.ext (by have := hg.size; unfold kb vb; omega),
+    hkt.2.2.mono hg⟩) h
 
 /-- a type export of a value type -/
 theorem HK_type_value {T : Types} {v : ValueType} {t : Tree} (h : HV [] [] T (vb T) v (renT ρ t)) :
@@ -74,23 +87,6 @@ theorem register_ok {st st' : St} {n : Str} {b : Bound} (h : register st n b = .
     refine ⟨?_, rfl⟩
     simpa using hf
 
-/-- no name of the denotation scope is a resource (fragment without resources) -/
-def ValOnly (s : Scope) : Prop := ∀ n q, s.get n ≠ some (.res q)
-
-theorem ValOnly.push {s : Scope} {n : Str} {t : Tree} (h : ValOnly s) :
-    ValOnly { s with binds := s.binds ++ [(n, .val t)] } := by
-  intro m q hm
-  simp only [Scope.get, alGet_append] at hm
-  cases hg : alGet s.binds m with
-  | some x =>
-    rw [hg] at hm
-    simp only [Option.some.injEq] at hm
-    exact h m q (by simp [Scope.get, hg, hm])
-  | none =>
-    rw [hg] at hm
-    simp only at hm
-    split at hm <;> cases hm
-
 /-- the common end of a value-type declaration: allocate, register the name, export the type -/
 theorem valueDecl_ok {st2 st3 : St} {n : Str} {id : Nat} {externs : List (Str × ItemKind)}
     {s : Scope} {t : Tree}
@@ -103,6 +99,7 @@ theorem valueDecl_ok {st2 st3 : St} {n : Str} {id : Nat} {externs : List (Str ×
     alInsert externs n (.type (.value (.defined id))) = externs ++ [(n, .type (.value (.defined id)))] ∧
     ExpRel ρ st3.types [(n, .type (.value (.defined id)))] [(n, .type t)] := by
   obtain ⟨hfr, rfl⟩ := register_ok hreg
-  refine ⟨rfl, rfl, hsim.push hfr hv, alInsert_fresh _ _ _ (alGet_none_not_mem _ _ hfresh), ⟨rfl, HK_type_value hv⟩, trivial⟩
+  refine ⟨rfl, rfl, hsim.push hfr hv, alInsert_fresh _ _ _ (alGet_none_not_mem _ _ hfresh),
+    ⟨rfl, HK_type_value hv, fun _ hk => by cases hk⟩, trivial⟩
 
 end Wac.Elab
